@@ -14,18 +14,25 @@ ASSUMPTIONS = [
     'the ghost arrays, when present, are index-aligned with their inlet/outlet (ghost_aligned); the inlet update raises IndexError otherwise, which the model reproduces',
     'no NaN among coordinates',
 ]
-READY = False
+READY = True
 DESIGN_REF = '6/C16'
 TECHNIQUE = 'Lean 4 proof over a hand-written model + exact correspondence check over histories'
-LEVEL_TEXT = ("Lean 4 theorems for every state, zone geometry, number type and history of moves/updates "
-              "(inlet_copy_exactly_once_per_crossing, inlet_recycled_one_length, outlet_move_exactly_once, "
-              "outlet_delete_far, nothing_else_changes, count_conservation, labels_never_duplicated, ghost invariants, "
-              "overshoot_still_outside) about a hand-written model transcribing InletBase/OutletBase.update, "
-              "hybrid Inlet.update, mirror Outlet.update, IOEvaluate and the ParticleArray operations they use; the "
-              "model is tied to the code on every run by executing whole histories on the real classes of all five "
-              "shipped families (real SPHEvaluator) and on the model, bit-exactly at Float and exactly at Rat, and the "
-              "property's own predicate is evaluated on the real arrays with exact rationals to produce replays.")
+LEVEL_TEXT = ("Lean 4 theorems for every state, zone geometry, props_to_copy mask, number type and history of "
+              "arbitrary moves and update calls (inlet_copy_exactly_once_per_crossing, inlet_recycled_one_length, "
+              "inlet_count_constant, inlet_ghost_recycled, outlet_move_exactly_once(_fluid), outlet_delete_far, "
+              "outlet_deletes_exactly_far_local, inlet/outlet_nothing_else_changes, hybrid_inlet_same_bookkeeping, "
+              "mirror_outlet_move_exactly_once(_fluid), count_conservation, inlet_size_invariant, and over ordered "
+              "fields zoneId_eq_zero/one/two_iff, recycled_back_inside, overshoot_still_outside, "
+              "ghost_stays_mirror_image) about a hand-written model transcribing InletBase/OutletBase.update, hybrid "
+              "Inlet.update, mirror Outlet.update, IOEvaluate and the ParticleArray/cyarray operations they use "
+              "(np.where on the real-particle view, extract_particles, swap-remove, align_particles — proved to be a "
+              "Local-first permutation); the model is tied to the code on every run by executing whole histories on "
+              "the real classes of all five shipped families (real SPHEvaluator) and on the model, bit-exactly at "
+              "Float and exactly at Rat, and the property's own predicate is evaluated on the real arrays with exact "
+              "rationals to produce replays.")
 LEVEL_NOTE = ("Trusted: Lean kernel, axioms propext/Classical.choice/Quot.sound; the hand-written model (checked by the "
               "correspondence, ~1300 update calls quick); exact arithmetic in place of IEEE doubles for zone decisions; "
-              "record abstraction of a particle; serial CPU path; arrays aligned on entry.")
+              "record abstraction of a particle; serial CPU path; arrays aligned on entry. Not proved (stated as a "
+              "def): the mirror family's ghost array stays index-aligned with the outlet (checked on the real code "
+              "by the harness only); history-level label uniqueness is checked by the harness oracle, not proved.")
 TIMEOUT = {'quick': 1500, 'thorough': 3 * 3600}
